@@ -56,6 +56,31 @@ pub fn traversal_case(cx: &mut Ctx, n: u64, case: &Value) {
     eq("coords_iter", "Geometry::coords_iter", got == want_coords, format!("{got:?}"));
     let got: Vec<Coord<f64>> = with_g!(&g, x => x.coords_iter().collect());
     eq("coords_iter", "concrete coords_iter", got == want_coords, format!("{got:?}"));
+    // iterator protocol: size_hint brackets the true count before and during iteration; partial consumption (nth, skip, last)
+    // yields the corresponding part of the sequence
+    {
+        let mut it = gg.coords_iter();
+        let (lo, hi) = it.size_hint();
+        let mut ok = lo <= want_coords.len() && hi.map_or(true, |h| h >= want_coords.len());
+        let mut seen = 0usize;
+        while let Some(c) = it.next() {
+            ok &= c == want_coords[seen];
+            seen += 1;
+            let (lo, hi) = it.size_hint();
+            let rest = want_coords.len() - seen;
+            ok &= lo <= rest && hi.map_or(true, |h| h >= rest);
+        }
+        ok &= seen == want_coords.len();
+        let k = want_coords.len() / 2;
+        ok &= gg.coords_iter().nth(k) == want_coords.get(k).copied() && gg.coords_iter().skip(k).collect::<Vec<_>>() == want_coords[k..].to_vec()
+            && gg.coords_iter().last() == want_coords.last().copied() && gg.exterior_coords_iter().last() == want_ext.last().copied()
+            && gg.exterior_coords_iter().count() == want_ext.len();
+        let ok2: bool = with_g!(&g, x => {
+            let (lo, hi) = x.coords_iter().size_hint();
+            lo <= want_coords.len() && hi.map_or(true, |h| h >= want_coords.len()) && x.coords_iter().skip(k).collect::<Vec<_>>() == want_coords[k..].to_vec()
+        });
+        eq("iterator_protocol", "size_hint / nth / skip / last / count of coords_iter and exterior_coords_iter", ok && ok2, String::new());
+    }
     let cnt = case["count"].as_u64().unwrap() as usize;
     eq("coords_count", "Geometry::coords_count", gg.coords_count() == cnt, format!("{}", gg.coords_count()));
     eq("coords_count", "concrete coords_count", with_g!(&g, x => x.coords_count()) == cnt, String::new());
